@@ -106,26 +106,173 @@ pub open spec fn is_canonical(s: Seq<Pair>, encoded: Seq<Pair>) -> bool {
     s.to_multiset() == encoded.to_multiset() && sorted_by_name(s)
 }
 
-pub fn canonical_query_block(ans: &mut String, decoded_query_strings: &[(String, String)])
+pub fn canonical_query_block(ans0: String, decoded_query_strings: &[(String, String)]) -> (ret: String)
     ensures
         //# C05:canon.query.encoded_sorted_by_encoded_name_joined
         exists|s: Seq<Pair>| #[trigger] is_canonical(s, enc_pairs(decoded_query_strings@, false))
-            && final(ans)@ == old(ans)@ + render(s) + seq!['\n'],
+            && ret@ == ans0@ + render(s) + seq!['\n'],
         //#-
 //@@ canary canonical_query_block
 {
+    let mut ans = ans0;
 //@@ extract header_query_block file=crates/s3s/src/sig_v4/methods.rs item="fn create_canonical_request" block="<CanonicalQueryString>" rewrites=smallvec
+    ans
 }
 
-pub fn presigned_canonical_query_block(ans: &mut String, decoded_query_strings: &[(String, String)])
+pub fn presigned_canonical_query_block(ans0: String, decoded_query_strings: &[(String, String)]) -> (ret: String)
     ensures
         //# C06:canon.presigned_query.encoded_sorted_by_encoded_name_joined_without_the_signature
         exists|s: Seq<Pair>| #[trigger] is_canonical(s, enc_pairs(decoded_query_strings@, true))
-            && final(ans)@ == old(ans)@ + render(s) + seq!['\n'],
+            && ret@ == ans0@ + render(s) + seq!['\n'],
         //#-
 //@@ canary presigned_canonical_query_block
 {
+    let mut ans = ans0;
 //@@ extract presigned_query_block file=crates/s3s/src/sig_v4/methods.rs item="fn create_presigned_canonical_request" block="<CanonicalQueryString>" rewrites=smallvec,forcontinue
+    ans
+}
+
+// ---- canonical headers and signed-headers lines ------------------------------------------------------------------------
+/// http::OrderedHeaders: the selected signed headers in ascending name order (lower-case names); selection and order are
+/// decided by find_multiple_with_on_missing (not under contract)
+pub struct OrderedHeaders<'a> { pub headers: Vec<(&'a str, &'a str)> }
+impl<'a> AsRef<[(&'a str, &'a str)]> for OrderedHeaders<'a> {
+    #[verifier::external_body]
+    fn as_ref(&self) -> (r: &[(&'a str, &'a str)])
+        ensures r@ == self.headers@
+    { unimplemented!() }
+}
+#[verifier::external_body]
+pub fn is_skipped_header(header: &str) -> (r: bool)
+    ensures r == (header@ == "authorization"@)
+{ unimplemented!() }
+
+/// `str::trim`: the string without leading and trailing white space (uninterpreted; trusted)
+pub uninterp spec fn trim_ws(s: Seq<char>) -> Seq<char>;
+pub assume_specification[ str::trim ](s: &str) -> (r: &str)
+    ensures r@ == trim_ws(s@);
+
+/// sequential spaces become a single space
+pub open spec fn collapse(s: Seq<char>) -> Seq<char>
+    decreases s.len()
+{
+    if s.len() == 0 { Seq::empty() }
+    else {
+        let p = collapse(s.drop_last());
+        if s.last() == ' ' && s.len() >= 2 && s[s.len() - 2] == ' ' { p } else { p.push(s.last()) }
+    }
+}
+/// AWS Trimall(): "removes excess white space before and after values, and converts sequential spaces to a single space"
+pub open spec fn trimall(s: Seq<char>) -> Seq<char> { collapse(trim_ws(s)) }
+
+//@@ extract push_collapsing_spaces file=crates/s3s/src/sig_v4/methods.rs item="fn push_collapsing_spaces" rewrites=attr,ret
+
+pub type Hdr = (Seq<char>, Seq<char>);
+pub open spec fn hviews(v: Seq<(&str, &str)>) -> Seq<Hdr> { v.map_values(|p: (&str, &str)| (p.0@, p.1@)) }
+/// Lowercase(name) + ':' + Trimall(value) + '\n' for every signed header except `authorization`
+pub open spec fn header_lines(h: Seq<Hdr>) -> Seq<char>
+    decreases h.len()
+{
+    if h.len() == 0 { Seq::empty() }
+    else if h.last().0 == "authorization"@ { header_lines(h.drop_last()) }
+    else { header_lines(h.drop_last()) + h.last().0 + seq![':'] + trimall(h.last().1) + seq!['\n'] }
+}
+/// does any header other than `authorization` occur
+pub open spec fn any_kept(h: Seq<Hdr>) -> bool
+    decreases h.len()
+{
+    if h.len() == 0 { false } else { any_kept(h.drop_last()) || h.last().0 != "authorization"@ }
+}
+/// the names of the same headers joined by ';'
+pub open spec fn names_joined(h: Seq<Hdr>) -> Seq<char>
+    decreases h.len()
+{
+    if h.len() == 0 { Seq::empty() }
+    else if h.last().0 == "authorization"@ { names_joined(h.drop_last()) }
+    else if !any_kept(h.drop_last()) { names_joined(h.drop_last()) + h.last().0 }
+    else { names_joined(h.drop_last()) + seq![';'] + h.last().0 }
+}
+
+pub fn canonical_headers_block(ans0: String, signed_headers: &OrderedHeaders<'_>) -> (ret: String)
+    ensures
+        //# C05:canon.headers.name_colon_trimall_value_newline
+        ret@ == ans0@ + header_lines(hviews(signed_headers.headers@)) + seq!['\n'],
+        //#-
+//@@ canary canonical_headers_block
+{
+    let mut ans = ans0;
+//@@ extract header_headers_block file=crates/s3s/src/sig_v4/methods.rs item="fn create_canonical_request" block="<CanonicalHeaders>" rewrites=refpat,forcontinue
+    ans
+}
+
+pub fn presigned_canonical_headers_block(ans0: String, signed_headers: &OrderedHeaders<'_>) -> (ret: String)
+    ensures
+        //# C06:canon.presigned_headers.name_colon_trimall_value_newline
+        ret@ == ans0@ + header_lines(hviews(signed_headers.headers@)) + seq!['\n'],
+        //#-
+//@@ canary presigned_canonical_headers_block
+{
+    let mut ans = ans0;
+//@@ extract presigned_headers_block file=crates/s3s/src/sig_v4/methods.rs item="fn create_presigned_canonical_request" block="<CanonicalHeaders>" rewrites=refpat,forcontinue
+    ans
+}
+
+pub fn signed_headers_block(ans0: String, signed_headers: &OrderedHeaders<'_>) -> (ret: String)
+    ensures
+        //# C05:canon.signed_headers.names_joined_by_semicolon
+        ret@ == ans0@ + names_joined(hviews(signed_headers.headers@)) + seq!['\n'],
+        //#-
+//@@ canary signed_headers_block
+{
+    let mut ans = ans0;
+//@@ extract header_signed_block file=crates/s3s/src/sig_v4/methods.rs item="fn create_canonical_request" block="<SignedHeaders>" rewrites=refpat,forcontinue
+    ans
+}
+
+pub fn presigned_signed_headers_block(ans0: String, signed_headers: &OrderedHeaders<'_>) -> (ret: String)
+    ensures
+        //# C06:canon.presigned_signed_headers.names_joined_by_semicolon
+        ret@ == ans0@ + names_joined(hviews(signed_headers.headers@)) + seq!['\n'],
+        //#-
+//@@ canary presigned_signed_headers_block
+{
+    let mut ans = ans0;
+//@@ extract presigned_signed_block file=crates/s3s/src/sig_v4/methods.rs item="fn create_presigned_canonical_request" block="<SignedHeaders>" rewrites=refpat,forcontinue
+    ans
+}
+
+/// hyper::Method: only its text is used
+pub struct Method { pub o: u64 }
+impl Method {
+    pub uninterp spec fn text(&self) -> Seq<char>;
+    #[verifier::external_body]
+    pub fn as_str(&self) -> (r: &str) ensures r@ == self.text() { unimplemented!() }
+}
+
+pub fn method_and_uri_lines(ans0: String, method: &Method, uri_path: &str) -> (ret: String)
+    ensures
+        //# C05:canon.method_line_then_uri_encoded_path_line
+        ret@ == ans0@ + method.text() + seq!['\n'] + enc_chars(uri_path@, false) + seq!['\n'],
+        //#-
+//@@ canary method_and_uri_lines
+{
+    let mut ans = ans0;
+//@@ extract header_method_block file=crates/s3s/src/sig_v4/methods.rs item="fn create_canonical_request" block="<HTTPMethod>"
+//@@ extract header_uri_block file=crates/s3s/src/sig_v4/methods.rs item="fn create_canonical_request" block="<CanonicalURI>"
+    ans
+}
+
+pub fn presigned_method_and_uri_lines(ans0: String, method: &Method, uri_path: &str) -> (ret: String)
+    ensures
+        //# C06:canon.presigned_method_line_then_uri_encoded_path_line
+        ret@ == ans0@ + method.text() + seq!['\n'] + enc_chars(uri_path@, false) + seq!['\n'],
+        //#-
+//@@ canary presigned_method_and_uri_lines
+{
+    let mut ans = ans0;
+//@@ extract presigned_method_block file=crates/s3s/src/sig_v4/methods.rs item="fn create_presigned_canonical_request" block="<HTTPMethod>"
+//@@ extract presigned_uri_block file=crates/s3s/src/sig_v4/methods.rs item="fn create_presigned_canonical_request" block="<CanonicalURI>"
+    ans
 }
 
 } // verus!
